@@ -178,7 +178,7 @@ func main() {
 				case *ast.SelectorExpr:
 					// sync.Pool -> the deterministic LIFO pool of the hook package (sync.Pool's choice
 					// of item depends on Ps, garbage collections and, in race builds, a random drop)
-					if id, ok := x.X.(*ast.Ident); ok && id.Name == "sync" && (x.Sel.Name == "Pool" || x.Sel.Name == "Once" || x.Sel.Name == "WaitGroup") && importsSync {
+					if id, ok := x.X.(*ast.Ident); ok && id.Name == "sync" && (x.Sel.Name == "Pool" || x.Sel.Name == "Once" || x.Sel.Name == "WaitGroup" || x.Sel.Name == "Cond" || x.Sel.Name == "NewCond") && importsSync {
 						// sync.Once -> a Once whose waiting callers yield instead of blocking for real
 						edits = append(edits, edit{off(x.Pos()), off(x.End()), "__vh." + x.Sel.Name})
 						poolRewritten = true
